@@ -129,11 +129,12 @@ Definition consume_bytes (b : bytes) : bytes * Z :=
   else (firstn (Z.to_nat m) rest, n + m).
 Definition append_bytes (v : bytes) : bytes := append_varint (Z.of_nat (length v)) ++ v.
 
-(* ConsumeFieldValue with the group recursion; fuel bounds the number of tags read
-   (each consumes at least one byte), depth is the Go recursion limit counter. *)
+(* ConsumeFieldValue with the group recursion. One fuel bounds both the nesting and the
+   number of tags read (each consumes at least one byte); `depth` is Go's recursion counter.
+   The group loop counts the bytes it consumed (n0 - len(b) in the Go code). *)
 Fixpoint consume_field_value_d (fuel : nat) (num typ : Z) (b : bytes) (depth : Z) : Z :=
   match fuel with
-  | O => errTruncated (* unreachable with fuel > length b, see WireProofs *)
+  | O => errTruncated (* unreachable with fuel > 2 * length b *)
   | S f =>
       if typ =? VarintType then snd (consume_varint b)
       else if typ =? Fixed32Type then snd (consume_fixed32 b)
@@ -141,7 +142,7 @@ Fixpoint consume_field_value_d (fuel : nat) (num typ : Z) (b : bytes) (depth : Z
       else if typ =? BytesType then snd (consume_bytes b)
       else if typ =? StartGroupType then
         if depth <? 0 then errRecursionDepth else
-        (fix group (gf : nat) (cur : bytes) : Z :=
+        (fix group (gf : nat) (cur : bytes) (consumed : Z) : Z :=
            match gf with
            | O => errTruncated
            | S gf' =>
@@ -149,17 +150,17 @@ Fixpoint consume_field_value_d (fuel : nat) (num typ : Z) (b : bytes) (depth : Z
                if n <? 0 then n else
                let cur1 := skipn (Z.to_nat n) cur in
                if typ2 =? EndGroupType then
-                 (if num =? num2 then Z.of_nat (length b) - Z.of_nat (length cur1) else errEndGroup)
+                 (if num =? num2 then consumed + n else errEndGroup)
                else
-                 let m := consume_field_value_d f num2 typ2 cur1 (depth - 1) in
-                 if m <? 0 then m else group gf' (skipn (Z.to_nat m) cur1)
-           end) (S (length b)) b
+                 let m := consume_field_value_d gf' num2 typ2 cur1 (depth - 1) in
+                 if m <? 0 then m else group gf' (skipn (Z.to_nat m) cur1) (consumed + n + m)
+           end) f b 0
       else if typ =? EndGroupType then errEndGroup
       else errReserved
   end.
 Definition DefaultRecursionLimit : Z := 10000.
 Definition consume_field_value (num typ : Z) (b : bytes) : Z :=
-  consume_field_value_d (S (length b)) num typ b DefaultRecursionLimit.
+  consume_field_value_d (S (S (length b + length b))) num typ b DefaultRecursionLimit.
 
 (* zig-zag and bool transforms (conv.go, wire.go) *)
 Definition encode_zigzag32 (v : Z) : Z := Z.lxor (u32 (Z.shiftl v 1)) (u32 (Z.shiftr v 31)).
